@@ -105,6 +105,8 @@ def eval_case(ctx, case):
     steps = case.get("steps") or [mapping]
     v = []
     sig = {"layout": case["layout"], "steps": len(steps), "extra_new": bool(case.get("extra"))}
+    if case.get("extra_dir"):
+        sig["extra_empty_folder"] = True
     if case.get("spell"):
         sig["root_spelled"] = case["spell"]
     if case.get("late"):
@@ -124,6 +126,10 @@ def eval_case(ctx, case):
             t = ops.edit(t, ["rm", d])
         if case.get("extra") and si == 0:
             t = ops.edit(t, ["write", "q/unrelated-new.bin", b"unrelated!!!"])   # same size as p/a.txt, other content
+        if case.get("extra_dir") and si == 0:
+            # a new EMPTY FOLDER whose path sorts before every file: its content hash is the hash of the empty input, as is
+            # that of a renamed 0-byte file - the folder must not take the file's former path
+            t = ops.edit(t, ["mkdir", "a new empty folder"])
         desc = f"{case['layout']} step {si + 1} renames {renamed}"
         # (6) without -dr: missing plus new
         if si == 0 and renamed:
@@ -257,6 +263,8 @@ def main(tier, seed):
                 cases.append({"layout": name, "base": base, "mapping": mp, "fmts": fmts, "dr_i": ["cache"]})
                 continue
             cases.append({"layout": name, "base": base, "mapping": mp, "fmts": fmts})
+            if any(c == b"" for c in base.values() if c is not DIR) and any(o != n for o, n in mp.items()):
+                cases.append({"layout": name, "base": base, "mapping": mp, "fmts": fmts, "extra_dir": True})
             if name == "flat" and sum(o != n for o, n in mp.items()) in (1, 2):
                 cases.append({"layout": name, "base": base, "mapping": mp, "fmts": fmts, "old_name_reused": True})
             if name == "flat" and sum(o != n for o, n in mp.items()) in (1, 3):   # ... with the root folder spelled in other ways
